@@ -128,8 +128,11 @@ class CHECK(core.Check):
                "urllib.parse (urlsplit, urljoin, unquote, quote, quote_plus, unquote_plus) and DNS enter the model as the "
                "parameter `Std`; the driver instantiates it with the results recorded from the implementation's own calls",
                "oracle: RFC 3986 section 5.2 reference resolution + unquote_to_bytes/parse_qsl of CPython for target equivalence",
-               "fix patches assumed applied: fixes/D34a, D34b, D34c, D34d (the model describes the repaired redirect())"]
-    PARTIAL = ["C34_target_resolved_partial: the exact request target (quote(path)?query) is proved under three laws of "
+               "the model describes redirect() as repaired by fixes/D34a, D34b, D34c, D34d (integrated in /repo)"]
+    PARTIAL = ["C34_relative_location_resolved_partial: that a relative Location is requested from the same scheme, host, "
+               "port and connection is proved given the answers of urljoin/urlsplit for it (hypotheses; CPython gives them "
+               "because the base url is built from exactly that scheme, host and port)",
+               "C34_target_resolved_partial: the exact request target (quote(path)?query) is proved under three laws of "
                "urllib.parse stated as hypotheses; that CPython's unquote/urljoin/urlsplit map the Location text to that "
                "path and query is outside Lean: false on the region lossyLocation (known finding D34e, "
                "C34_target_counterexample), exercised by the correspondence runs elsewhere",
@@ -144,7 +147,8 @@ class CHECK(core.Check):
                   "opens or uses a non-TLS connection, also not before an exception (C34_never_downgrades; C34_no_downgrade: "
                   "ValueError and nothing sent); a followed redirect replaces the connection iff resolved address, port or "
                   "scheme differ and sends exactly one request either way (C34_reconnect_iff_authority_differs, "
-                  "C34_same_authority_same_connection, C34_followed_request: method kept, body dropped, Host of the new "
+                  "C34_same_authority_same_connection, C34_relative_location_resolved_partial (given the urljoin/urlsplit "
+                  "answers), C34_followed_request: method kept, body dropped, Host of the new "
                   "authority); after redirects rs and a final response f .responses grows by exactly one entry carrying rs in "
                   "arrival order, .redirects is empty again, one request per redirect, one delivery (C34_chain_in_order). "
                   "Partial: the exact request target (C34_target_resolved_partial) assumes laws of urlsplit/quote as "
